@@ -287,6 +287,12 @@ func Build(spec Spec) *Built {
 				mn.Kids = []*Node{b.stmt("return \"\"")}
 				mn.Post = []*Line{b.line("}")}
 				fmeth.Decls = append(fmeth.Decls, mn)
+				// ... and one with an unnamed receiver
+				un := &Node{Fn: &Func{Pkg: d, Name: "Flush", Recv: t, File: fmeth}, Pin: fmeth.Name}
+				ru2 := refT(t, SubRecv)
+				ru2.Feature = "receiver-is-only-mention"
+				un.Pre = []*Line{b.tl("func (*%T) Flush() {}", ru2)}
+				fmeth.Decls = append(fmeth.Decls, un)
 			}
 			if spec.Hostile {
 				an := "Al" + strings.ToUpper(t.Name[:1]) + t.Name[1:]
